@@ -36,7 +36,14 @@ VALUES = {"quick": 2, "thorough": 3}
 CAP = {"quick": 24, "thorough": 60}
 
 
+
 def shards(tier, seed):
+    from vf import engine
+
+    return engine.with_interpreter_options(_plain_shards(tier, seed))
+
+
+def _plain_shards(tier, seed):
     return campaign.tree_shards(TREES[tier], 2 if tier == "quick" else 10, capture=True)
 
 
@@ -148,30 +155,60 @@ def run_tree(rec, tier, seed, ti, spec, t, log, lf):
             flush_leaks(rec, log, t, ti, name, "clean serialize", case)
             # the nested classes (case data, struct fields) are public classes too: each nested instance is also
             # serialized and deserialized on its own, entered with either mode
-            nested = []
-            br.walk(obj, real, lambda inst, cls, names, where: nested.append((inst, cls, where)) if (len(cls) > 1 or where) else None)
-            for inst, cls, where in nested[:6]:
+            nested = [(inst, mo.cls, where, mo) for mo, inst, where in br.pairs(obj, real) if (len(mo.cls) > 1 or where)]
+            for inst, cls, where, mo in nested[:6]:
                 NC = type(inst)
                 for m2 in (False, True):
                     w2 = t.EoWriter()
                     w2.string_sanitization_mode = m2
+                    raised2 = None
                     try:
                         NC.serialize(w2, inst)
-                    except (ValueError, t.SerializationError):
-                        pass
+                    except (ValueError, t.SerializationError) as e:
+                        raised2 = e
                     except Exception as e:
+                        raised2 = e
                         rec.count("other-exception-during-serialize:" + type(e).__name__)
                     rec.count("nested-classes-entered-directly")
                     flush_leaks(rec, log, t, ti, name, "nested %s%s serialized directly (entry mode %r)" % (".".join(cls), where, m2), case)
                     d2 = bytes(w2.to_bytearray())
+                    # what the nested class writes when entered on its own is prescribed too: the section structure of
+                    # its own declaration decides which of its strings are sanitised, whatever the entry mode
+                    mw2 = RefWriter()
+                    mw2.sanitize = m2
+                    try:
+                        it.serialize(mo, mw2)
+                        want2 = bytes(mw2.data)
+                    except Exception:
+                        want2 = None
+                    if want2 is not None and raised2 is None:
+                        rec.count("nested-direct-serializations-compared")
+                        if d2 != want2:
+                            rec.violation("writer-mode-inside-call-differs", "tree %d %s: nested %s%s serialized on its own with entry mode %r wrote %s, the XML prescribes %s" % (
+                                ti, name, ".".join(cls), where, m2, d2.hex()[:120], want2.hex()[:120]), dict(case, xml=t.files, nested=".".join(cls)))
                     r2 = t.EoReader(d2)
                     r2.chunked_reading_mode = m2
                     m2r = RefReader(d2)
                     m2r.chunked = m2
+                    back2 = None
                     try:
-                        NC.deserialize(LockstepReader(r2, m2r, fuel=6 * len(d2) + 5000))
+                        back2 = NC.deserialize(LockstepReader(r2, m2r, fuel=6 * len(d2) + 5000))
                     except (Exception, FuelExhausted, Divergence, InjectedFault):
                         pass
+                    if back2 is not None and raised2 is None:
+                        # ... and so is what it reads back from those bytes under the same entry mode
+                        m3 = RefReader(d2)
+                        m3.chunked = m2
+                        try:
+                            want3 = it.deserialize(tuple(cls), m3)
+                        except Exception:
+                            want3 = None
+                        if want3 is not None:
+                            rec.count("nested-direct-deserializations-compared")
+                            diffs = br.compare(want3, back2)
+                            if diffs:
+                                rec.violation("reader-mode-inside-call-differs", "tree %d %s: nested %s%s deserialized on its own with entry mode %r: %s" % (
+                                    ti, name, ".".join(cls), where, m2, "; ".join(diffs[:3])), dict(case, xml=t.files, nested=".".join(cls), bytes=d2))
                     flush_leaks(rec, log, t, ti, name, "nested %s%s deserialized directly (entry mode %r)" % (".".join(cls), where, m2), case)
             for k in indices(n_ops, CAP[tier], rng):
                 ser(fail_at=k)
